@@ -344,27 +344,44 @@ def witness_search(prop, repo, rundir, seed, timeout=1800, quick=False):
     b = subprocess.run(["cargo", "build", "--release", "--offline", "-q"], cwd=crate, env=env, capture_output=True, text=True)
     if b.returncode != 0:
         return {"cases": 0, "failures": [], "error": "replay tool does not build against this tree: " + b.stderr[-400:]}
-    try:
-        emit_dir = os.path.join(rundir, "emit")
-        os.makedirs(emit_dir, exist_ok=True)
-        r = subprocess.run([os.path.join(target, "release", "replay"), "witness", prop, str(seed)] + (["quick"] if quick else []), capture_output=True, text=True, timeout=timeout,
-                           env=dict(os.environ, VERIF_EMIT_DIR=emit_dir))
-    except subprocess.TimeoutExpired:
-        return {"cases": 0, "failures": [], "error": "witness search timed out"}
-    res = {"cases": 0, "failures": [], "error": None}
+    # the full families are split over SHARDS processes (VERIF_SHARD=i/n, see tools/replay/src/main.rs); the quick slice over 4
+    shards = int(os.environ.get("VERIF_SHARDS", "4" if quick else "8"))
+    emit_dir = os.path.join(rundir, "emit")
+    os.makedirs(emit_dir, exist_ok=True)
+    procs = []
+    for i in range(shards):
+        ed = os.path.join(emit_dir, "s%d" % i)
+        os.makedirs(ed, exist_ok=True)
+        procs.append(subprocess.Popen([os.path.join(target, "release", "replay"), "witness", prop, str(seed)] + (["quick"] if quick else []), stdout=subprocess.PIPE, stderr=subprocess.PIPE, text=True,
+                                      env=dict(os.environ, VERIF_EMIT_DIR=ed, VERIF_SHARD="%d/%d" % (i, shards))))
+    outs = []
+    deadline = time.time() + timeout
+    for pr in procs:
+        try:
+            o, _ = pr.communicate(timeout=max(1, deadline - time.time()))
+            outs.append(o)
+        except subprocess.TimeoutExpired:
+            for q in procs:
+                q.kill()
+            return {"cases": 0, "failures": [], "error": "witness search timed out"}
+    class _R: pass
+    r = _R()
+    r.stdout = "\n".join(outs)
+    res = {"cases": 0, "failures": [], "error": None, "emitted_files_checked": 0, "distinct_inputs": 0, "distinct_inputs_that_parse": 0, "samples": []}
     for l in r.stdout.splitlines():
         try:
             d = json.loads(l)
         except ValueError:
             continue
         if "cases" in d:
-            res["cases"] = d["cases"]
-            res["emitted_files_checked"] = d.get("emitted_files_checked", 0)
-            res["distinct_inputs"] = d.get("distinct_inputs", 0)
-            res["distinct_inputs_that_parse"] = d.get("distinct_inputs_that_parse", 0)
-            res["samples"] = d.get("samples", [])
+            res["cases"] += d["cases"]
+            res["emitted_files_checked"] += d.get("emitted_files_checked", 0)
+            res["distinct_inputs"] += d.get("distinct_inputs", 0)
+            res["distinct_inputs_that_parse"] += d.get("distinct_inputs_that_parse", 0)
+            res["samples"] = (res["samples"] + d.get("samples", []))[:3]
         else:
             res["failures"].append(d)
+    res["failures"] = res["failures"][:25]
     return res
 
 
